@@ -3,7 +3,7 @@
 use super::common::*;
 use super::histories::ASSUME_HIST;
 use crate::generate::{Profile, history_strategy};
-use crate::history::run_history;
+use crate::history::run_history_for;
 use crate::ir::*;
 use crate::runner::*;
 use std::time::Instant;
@@ -22,7 +22,7 @@ pub fn run_history_list(
         while i < total {
             let h = make(i);
             cur.record(&history_value(&h));
-            let res = run_history(&h);
+            let res = run_history_for(&h, prop);
             let mut st = CaseStats::default();
             let nt = rule(&res.ctx);
             let v = account(prop, &h, &res, nt, &mut st);
@@ -40,12 +40,12 @@ pub fn run_history_list(
 
 // ------------------------------------------------------------------------------------------ C05
 
-fn fault_case(pairs: bool) -> impl Fn(&History, &mut CurrentFile) -> (CaseStats, Option<Violation>) + Sync {
+pub fn fault_case(prop: &'static str, pairs: bool) -> impl Fn(&History, &mut CurrentFile) -> (CaseStats, Option<Violation>) + Sync {
     move |h, cur| {
         let mut stats = CaseStats::default();
         cur.record(&history_value(h));
-        let clean = run_history(h);
-        if let Some(v) = account("C05", h, &clean, false, &mut stats) {
+        let clean = run_history_for(h, prop);
+        if let Some(v) = account(prop, h, &clean, false, &mut stats) {
             return (stats, Some(v));
         }
         if !clean.failures.is_empty() {
@@ -55,9 +55,9 @@ fn fault_case(pairs: bool) -> impl Fn(&History, &mut CurrentFile) -> (CaseStats,
         for k in 0..n {
             let hk = History { ops: h.ops.clone(), plan: Plan { faults: vec![k] } };
             cur.record(&history_value(&hk));
-            let rk = run_history(&hk);
+            let rk = run_history_for(&hk, prop);
             let nt = rk.ctx.tags.contains("fault_observed");
-            if let Some(v) = account("C05", &hk, &rk, nt, &mut stats) {
+            if let Some(v) = account(prop, &hk, &rk, nt, &mut stats) {
                 return (stats, Some(v));
             }
             if rk.faults_fired > 0 {
@@ -67,9 +67,9 @@ fn fault_case(pairs: bool) -> impl Fn(&History, &mut CurrentFile) -> (CaseStats,
                 for j in (k + 1)..rk.requests {
                     let hj = History { ops: h.ops.clone(), plan: Plan { faults: vec![k, j] } };
                     cur.record(&history_value(&hj));
-                    let rj = run_history(&hj);
+                    let rj = run_history_for(&hj, prop);
                     let nt = rj.ctx.tags.contains("fault_observed") && rj.faults_fired >= 2;
-                    if let Some(v) = account("C05", &hj, &rj, nt, &mut stats) {
+                    if let Some(v) = account(prop, &hj, &rj, nt, &mut stats) {
                         return (stats, Some(v));
                     }
                     if rj.faults_fired >= 2 {
@@ -92,7 +92,7 @@ pub fn c05(tier: Tier, seed: u64) -> Verdict {
         (Profile { w_static: 16, w_convert: 10, ..Profile::faults() }, n / 2),
     ];
     for (i, (p, cases)) in profiles.into_iter().enumerate() {
-        let m = run_sharded("C05", seed, i as u64, cases, || history_strategy(&p), fault_case(tier == Tier::Thorough));
+        let m = run_sharded("C05", seed, i as u64, cases, || history_strategy(&p), fault_case("C05", tier == Tier::Thorough));
         merged.merge(m);
         if merged.violation.is_some() {
             break;
@@ -135,12 +135,12 @@ fn set_panic_at(op: &mut Op, k: Option<u16>) -> bool {
     }
 }
 
-fn panic_case(max_k: u16) -> impl Fn(&History, &mut CurrentFile) -> (CaseStats, Option<Violation>) + Sync {
+pub fn panic_case(prop: &'static str, max_k: u16) -> impl Fn(&History, &mut CurrentFile) -> (CaseStats, Option<Violation>) + Sync {
     move |h, cur| {
         let mut stats = CaseStats::default();
         cur.record(&history_value(h));
-        let clean = run_history(h);
-        if let Some(v) = account("C18", h, &clean, false, &mut stats) {
+        let clean = run_history_for(h, prop);
+        if let Some(v) = account(prop, h, &clean, false, &mut stats) {
             return (stats, Some(v));
         }
         if !clean.failures.is_empty() {
@@ -155,10 +155,10 @@ fn panic_case(max_k: u16) -> impl Fn(&History, &mut CurrentFile) -> (CaseStats, 
                 let mut hk = h.clone();
                 set_panic_at(&mut hk.ops[i], Some(k));
                 cur.record(&history_value(&hk));
-                let rk = run_history(&hk);
+                let rk = run_history_for(&hk, prop);
                 let fired = rk.ctx.injected_fired;
                 let nt = rk.ctx.tags.contains("injected_nontrivial");
-                if let Some(v) = account("C18", &hk, &rk, nt, &mut stats) {
+                if let Some(v) = account(prop, &hk, &rk, nt, &mut stats) {
                     return (stats, Some(v));
                 }
                 if !fired {
@@ -178,7 +178,7 @@ pub fn c18(tier: Tier, seed: u64) -> Verdict {
     let base = Profile { callback_panics: false, ..Profile::panics() };
     let profiles = vec![(base.clone(), n), (Profile { w_clone: 26, w_static: 10, ..base.clone() }, n), (Profile { max_text: 300, ..base }, n / 2)];
     for (i, (p, cases)) in profiles.into_iter().enumerate() {
-        let m = run_sharded("C18", seed, i as u64, cases, || history_strategy(&p), panic_case(tier.pick(24, 64)));
+        let m = run_sharded("C18", seed, i as u64, cases, || history_strategy(&p), panic_case("C18", tier.pick(24, 64)));
         merged.merge(m);
         if merged.violation.is_some() {
             break;
